@@ -1,7 +1,110 @@
 import ConfModel.Driver.Common
+import ConfModel.Model.Delimited
+import ConfModel.Spec.Framing
 namespace ConfModel.Driver.C09
-open Lean ConfModel.Driver
+open Lean ConfModel.Driver ConfModel.Delimited ConfModel.Framing
 
-def handle : Handler := fun op _inp _impl => bad ("C09: unknown op " ++ op)
+def ending (s : String) : Ending :=
+  match s with
+  | "eof" => .eofSeparate
+  | "eofWithData" => .eofWithLastData
+  | "fail" => .fail
+  | _ => .stall
+
+/-- canonical text of a result; a time-out is shown as the text the code prints for its
+progress triple -/
+def showRes (limit : Nat) : Res → String
+  | .msg b => "msg:" ++ hex b
+  | .eof => "eof"
+  | .unexpectedEOF => "unexpectedEOF"
+  | .fail => "fail"
+  | .tooLarge n => s!"tooLarge:{n}/{limit}"
+  | .timeout pd k n =>
+    match timeoutReport pd k n with
+    | .complete => "timeout:complete"
+    | .nothing => "timeout:nothing"
+    | .partialRead w k n => s!"timeout:{w}:{k}/{n}"
+
+def showImpl (j : Json) : String :=
+  let err := str (field j "err")
+  if err == "" then
+    (if isNull (field j "msg") then "hdr:" ++ toString (strList (field j "hdr")) else "msg:" ++ str (field j "msg"))
+  else if err == "tooLarge" then s!"tooLarge:{nat (field j "size")}/{nat (field j "limit")}"
+  else if err == "timeout" then
+    (if str (field j "what") == "nothing" then "timeout:nothing"
+     else s!"timeout:{str (field j "what")}:{nat (field j "read")}/{nat (field j "of")}")
+  else err
+
+def isWs (b : UInt8) : Bool := b == 0x20 || b == 0x0a || b == 0x0d || b == 0x09
+
+def lastD (l : List String) (d : String) : String := l.getLast?.getD d
+
+def handle : Handler := fun op inp impl =>
+  if !(isNull (field impl "panic")) then
+    { agree := false, holds := false, why := "panic: " ++ str (field impl "panic") } else
+  match op with
+  | "read" =>
+    let data := unhex (str (field inp "bytes"))
+    let caps := natList (field inp "caps")
+    let e := ending (str (field inp "ending"))
+    let via := str (field inp "via")
+    let max := if via == "dec" then 4294967295 else nat (field inp "max")
+    let count := nat (field inp "count")
+    let r : Reader := ⟨data, caps, e⟩
+    let out := if via == "dec" then decodeAll count r else readAll max count r
+    let mRes := out.results.map (showRes max)
+    let mConsumed := data.length - out.rest.data.length
+    let mMaxBuf := out.allocs.foldl Nat.max 0
+    let iRes := (arr (field impl "results")).map showImpl
+    let iConsumed := nat (field impl "consumed")
+    let iMaxBuf := nat (field impl "maxBuf")
+    let timely := bool (field impl "timely")
+    -- the property: the results are those of the declarative cut of the byte string (which
+    -- knows nothing about caps), exactly the consumed bytes were taken, no buffer above the
+    -- limit was asked for, time-outs came within the window
+    let spec := (expected max count data e).map (showRes max)
+    let sConsumed := consumed max count data
+    let bufOk := via == "dec" || iMaxBuf ≤ Nat.max 4 max
+    let holds := iRes == spec && iConsumed == sConsumed && bufOk && timely
+    { agree := iRes == mRes && iConsumed == mConsumed && iMaxBuf == mMaxBuf,
+      holds := holds,
+      nontrivial := !data.isEmpty,
+      cls := via ++ ":" ++ ((lastD spec "none").splitOn ":").head!,
+      model := Json.mkObj [("results", toJson mRes), ("consumed", mConsumed), ("maxBuf", mMaxBuf)],
+      why := if holds then "" else
+        s!"framing: expected {spec} consumed {sConsumed}, got {iRes} consumed {iConsumed} maxBuf {iMaxBuf} timely {timely}" }
+  | "enc" =>
+    let bodies := (strList (field impl "bodies")).map unhex
+    let want := hex (bodies.flatMap encode)
+    let got := str (field impl "stream")
+    { agree := got == want, holds := got == want, nontrivial := !bodies.isEmpty,
+      model := Json.mkObj [("stream", want)],
+      why := if got == want then "" else "encoder: stream is not the concatenation of prefix+body" }
+  | "json" =>
+    let hdrs := (arr (field inp "hdrs")).map (fun h => let l := strList h; if l.isEmpty then [""] else l)
+    let e := ending (str (field inp "ending"))
+    let count := nat (field inp "count")
+    let total := nat (field impl "len")
+    let cut := int (field inp "cut")
+    let n := if cut < 0 then total else Nat.min cut.toNat total
+    let valueEnds := natList (field impl "valueEnds")
+    let textEnds := natList (field impl "textEnds")
+    let complete := (valueEnds.filter (· ≤ n)).length
+    let iRes := (arr (field impl "results")).map showImpl
+    let wantMsgs := ((hdrs.take complete).take count).map (fun h => "hdr:" ++ toString h)
+    let iMsgs := iRes.filter (·.startsWith "hdr:")
+    let iLast := lastD iRes "none"
+    -- only white space after the last complete message?
+    let clean := complete == 0 && n == 0 || (complete > 0 && n ≤ (textEnds.getD (complete - 1) 0))
+    let holds :=
+      iMsgs == wantMsgs && iRes.length ≤ wantMsgs.length + 1 &&
+      (if count ≤ complete then iRes.length == count
+       else iRes.length == complete + 1 &&
+         (if clean then (if e == .fail then iLast == "fail" else iLast == "eof")
+          else iLast != "eof" && !iLast.startsWith "hdr:"))
+    { agree := holds, holds := holds, nontrivial := n > 0,
+      cls := if count ≤ complete then "more" else if clean then "clean" else "cut",
+      why := if holds then "" else s!"json: {complete} complete messages, clean={clean}, got {iRes}" }
+  | _ => bad ("unknown op " ++ op)
 
 end ConfModel.Driver.C09
